@@ -55,3 +55,40 @@ def rule_after_endif(run, prog, rid="R-14.8"):
     run.ob(rid, f"{m.key}::after-the-closing-endif", bad is None,
            (f"`#endif` of a correct guard followed by `{show(bad[0])}`: reported {bad[1]}, expected {bad[2]}") if bad else "",
            m.node, evaluations=n)
+
+
+def rule_before_ifndef(run, prog, rid="R-14.10"):
+    run.rule(rid, "whatever statement precedes the guard's #ifndef is reported: CheckPreprocessorProtection.run, interpreted on "
+             "`#ifndef FILE_H` with a history of one earlier statement of each kind the registry knows (every Primary), reports "
+             "HEADER_PROT_ALL for every kind except comments and empty lines -- and for none of those two", floor=1)
+    from ..facts import registry_model
+    m = prog.method("CheckPreprocessorProtection", "run")
+    run.require(m is not None, "anchor vanished: CheckPreprocessorProtection.run")
+    rm = registry_model(prog)
+    kinds = sorted(rm.primary_names)
+    run.require(len(kinds) >= 15, f"only {len(kinds)} primaries found (floor 15)")
+    missed, spurious, n = [], [], 0
+    try:
+        for first in kinds:
+            for filler in ((), ("IsEmptyLine",), ("IsComment", "IsEmptyLine")):
+                n += 1
+                toks = line_tokens(["HASH", ("IDENTIFIER", "ifndef"), "SPACE", ("IDENTIFIER", "FILE_H"), "NEWLINE"], 9, 1)
+                pre = Obj("PreProcessors", indent=1, _indent=1, macros=[], includes=[], total_ifs=0, total_elifs=0, total_elses=0,
+                          total_ifdefs=0, total_ifndefs=1, skip_define=False)
+                sc = StubContext(prog, toks, history=(first,) + filler + ("IsPreprocessorStatement",), scope="GlobalScope",
+                                 basename="file.h", protected=False, preproc=pre)
+                try:
+                    run_rule(prog, "CheckPreprocessorProtection", sc)
+                except RUNTIME_ERRORS:
+                    continue
+                got = "HEADER_PROT_ALL" in sc.codes()
+                want = first not in ("IsComment", "IsEmptyLine")
+                if want and not got:
+                    missed.append(first)
+                if got and not want:
+                    spurious.append(first)
+    except Unsupported as e:
+        raise Undecided(f"CheckPreprocessorProtection.run is outside the evaluable subset: {e}")
+    run.ob(rid, f"{m.key}::anything-before-the-guard", not missed and not spurious,
+           (f"a statement recognised by {sorted(set(missed))[:6]} in front of the guard's #ifndef gets no HEADER_PROT_ALL" if missed else "")
+           + (f" a {sorted(set(spurious))} line in front of the guard is reported" if spurious else ""), m.node, evaluations=n)
